@@ -66,6 +66,8 @@ class Obs:
         self.timeout = False
         self.real_results_left: Any = None
         self.started_after_raise: list = []
+        self.loaded_after: dict = {}
+        self.cached_tasks_error = None
 
     def summary(self) -> dict:
         return {
@@ -94,7 +96,8 @@ DEADLINES = {'controlled': 20.0, 'serial': 20.0, 'fork': 60.0, 'spawn': 150.0}
 
 
 def execute_case(spec: dict, *, chooser: Optional[Chooser] = None, gated: bool = False, deadline_s: Optional[float] = None,
-                 keep_dir: bool = False, pre_hook=None, storage_wrapper=None) -> Obs:
+                 keep_dir: bool = False, pre_hook=None, storage_wrapper=None, around_run=None, verify_cache: bool = False,
+                 rest_hook=None) -> Obs:
     obs = Obs()
     d = tempfile.mkdtemp(prefix='case-', dir=scratch_root())
     obs_dir = os.path.join(d, 'obs')
@@ -129,7 +132,7 @@ def execute_case(spec: dict, *, chooser: Optional[Chooser] = None, gated: bool =
         if deadline_s is None:
             deadline_s = DEADLINES.get(backend_kind, 60.0)
         ctl = Control(chooser or Chooser(spec.get('schedule', [])), gated=gated, obs_dir=obs_dir,
-                      deadline=time.monotonic() + deadline_s)
+                      deadline=time.monotonic() + deadline_s, rest_hook=rest_hook)
         if backend_kind == 'controlled':
             backend = ControlledBackend(ctl)
         else:
@@ -148,8 +151,9 @@ def execute_case(spec: dict, *, chooser: Optional[Chooser] = None, gated: bool =
         try:
             with contextlib.redirect_stderr(sink), _alarm(deadline_s + 5.0):
                 try:
-                    res = lab.run_tasks(built.requested, bust_cache=lab_spec.get('bust_cache', False),
-                                        disable_progress=not displays, disable_top=not displays)
+                    with (around_run(ctl) if around_run is not None else contextlib.nullcontext()):
+                            res = lab.run_tasks(built.requested, bust_cache=lab_spec.get('bust_cache', False),
+                                            disable_progress=not displays, disable_top=not displays)
                 except HarnessTimeout as ex:
                     obs.outcome = 'raise'
                     obs.exc = ex
@@ -203,6 +207,18 @@ def execute_case(spec: dict, *, chooser: Optional[Chooser] = None, gated: bool =
             obs.keys_after = sorted(lab2._storage.find_keys())
             for nid, task in built.shared.items():
                 obs.cached_after[nid] = lab2.is_cached(task)
+            if verify_cache:
+                # what a later session would get for every entry that is reported cached
+                for nid, task in built.shared.items():
+                    if obs.cached_after[nid]:
+                        try:
+                            obs.loaded_after[nid] = ('ok', task._lt.cache.load_result_with_meta(lab2._storage, task).value)
+                        except BaseException as ex:
+                            obs.loaded_after[nid] = ('error', f'{type(ex).__name__}: {ex}'[:200])
+                try:
+                    lab2.cached_tasks(list(vu.NODE_TYPES.values()))
+                except BaseException as ex:
+                    obs.cached_tasks_error = f'{type(ex).__name__}: {ex}'[:200]
         for nid, insts in built.instances.items():
             obs.meta[nid] = [t.result_meta for t in insts]
         return obs
